@@ -367,6 +367,17 @@ pub fn structural_probes() -> Vec<Probe> {
         let twin = format!("{PRELUDE}\nuse gc_arena::static_collect;\nfn need<'gc, T: Collect<'gc>>() {{}}\n{twin_items}\nfn main() {{}}\n");
         v.push(Probe { name: format!("static_collect_{}", v.len()), class: format!("static_collect-macro|{n}"), negative: neg, twin });
     }
+    // dyn_collect! is for trait objects only: for a sized type its impl would be satisfied circularly
+    // (blanket DynCollect for sized Collect types) and make any type Collect
+    for (n, items, ty) in [
+        ("generic arm on a struct holding a branded reference", "struct B<'a>(&'a std::cell::Cell<u8>);\ngc_arena::collect::dyn_collect!(<'a> B<'a>);", "B<'gc>"),
+        ("plain arm on a struct holding a branded reference", "struct B<'a>(&'a std::cell::Cell<u8>);\ngc_arena::collect::dyn_collect!(B<'gc>);", "B<'gc>"),
+        ("generic arm on a struct with a type parameter", "struct B<T>(T);\ngc_arena::collect::dyn_collect!(<T> B<T>);", "B<&'gc std::cell::Cell<u8>>"),
+    ] {
+        let neg = format!("{PRELUDE}\nfn need<'gc, T: Collect<'gc>>() {{}}\n{items}\nfn probe<'gc>() {{ need::<'gc, {ty}>(); }}\nfn main() {{}}\n");
+        let twin = format!("{PRELUDE}\nfn need<'gc, T: Collect<'gc> + ?Sized>() {{}}\ntrait Tr<'gc>: 'gc + gc_arena::collect::DynCollect<'gc> {{}}\ngc_arena::collect::dyn_collect!(dyn Tr<'gc>);\ntrait Tr2<'gc, T>: gc_arena::collect::DynCollect<'gc> where T: Clone {{}}\ngc_arena::collect::dyn_collect!(<T> dyn Tr2<'gc, T> where T: Clone);\nfn ok<'gc>() {{ need::<'gc, dyn Tr<'gc>>(); need::<'gc, Box<dyn Tr2<'gc, u8>>>(); }}\nfn main() {{}}\n");
+        v.push(Probe { name: format!("dyn_collect_{}", v.len()), class: format!("dyn_collect-macro|{n}"), negative: neg, twin });
+    }
     // derive(Collect): require_static (whole type or field) must keep demanding 'static whatever `bound` says
     let dv: [(&str, &str, &str); 4] = [
         ("whole-type require_static with an empty bound", "#[derive(Collect)]\n#[collect(require_static, bound = \"\")]\nstruct B<'a>(&'a std::cell::Cell<u8>);", "#[derive(Collect)]\n#[collect(require_static, bound = \"\")]\nstruct B<'a>(&'a std::cell::Cell<u8>);\nfn ok<'gc>() { need::<'gc, B<'static>>(); }"),
@@ -427,6 +438,13 @@ pub fn run(tc: &Toolchain, probes: &[Probe], threads: usize) -> C12Report {
         }
         if n.ok {
             rep.accepted_negative.push((p.class.clone(), p.negative.clone()));
+            continue;
+        }
+        // a probe that feeds a macro something it must refuse dies in macro expansion ("no rules expected")
+        let macro_refusal = p.class.starts_with("dyn_collect-macro") && n.stderr.contains("no rules expected");
+        if macro_refusal {
+            rep.rejected += 1;
+            *rep.families.entry("macro-refusal".to_string()).or_insert(0) += 1;
             continue;
         }
         if generator_fault(&n.stderr) {
